@@ -657,6 +657,12 @@ def datumkeys(ctx, R):
                 if isinstance(v_, ast.Lambda) and v_.args.args:
                     g = P.func_of_node.get(v_)
                     sites.append((g, v_.body, v_.args.args[0].arg))
+                elif isinstance(v_, ast.Name) and ("timeline.%s" % v_.id) in P.funcs:
+                    # a named accessor instead of a lambda
+                    g = P.funcs["timeline.%s" % v_.id]
+                    if g.params and not g.is_lambda:
+                        for stn in g.node.body:
+                            sites.append((g, stn, g.params[0]))
     f = P.func("timeline.Timeline.parse_items")
     for lp in ast.walk(f.node):
         if isinstance(lp, ast.For) and isinstance(lp.target, ast.Name) and isinstance(lp.iter, ast.Name) and lp.iter.id in f.params:
